@@ -93,6 +93,12 @@ CONTEXTS = ["select", "where", "nested", "subquery", "cte", "view", "ctas", "ins
 def run_in_context(cur, ctx: str, x: str, uid: str) -> str:
     """execute expression `x` in context `ctx`; returns the observation of its value there"""
     try:
+        if ctx == "describe":
+            # the result TYPE the cursor reports: (type_code, precision, scale) of the only column
+            cur.execute(f"select {x}")
+            cur.fetchall()
+            d = cur.description[0]
+            return f"desc:{d.type_code},{d.precision},{d.scale}"
         if ctx == "select":
             cur.execute(f"select {x}")
         elif ctx == "where":
@@ -342,7 +348,7 @@ def build(chk):
     # ---- TO_NUMBER family ----------------------------------------------------------------------
     strs = ["12345678901234567890", "12.5", "2.5", "-2.5", "0.5", "-0.5", "1.005", "12.345", "12.355", "0.125", "99.995", "7", "-0", "123456", "abc", "", "1.5.2"]
     nums = ["12.345", "12.355", "2.5", "3.5", "-2.5", "0.125", "0.135", "7", "12.34", "99.995"]
-    argsets = [[], [10], [10, 1], [10, 2], [5, 0], [38, 0], [4, 2], ["s"], ["s", 10], ["s", 10, 2]]
+    argsets = [[], [10], [10, 1], [10, 2], [5, 0], [38, 0], [4, 2], ["s"], ["s", 10], ["s", 10, 2], [20, 10], [38, 37], [30, 12], [38, 10], [12, 11], [25, 19]]
     fns = ["to_number", "to_decimal", "to_numeric", "try_to_number", "try_to_decimal", "try_to_numeric"]
     combos = [(fn, v, True, a) for fn in fns for v in strs for a in argsets] + [(fn, v, False, a) for fn in fns[:3] for v in nums for a in argsets[:7]]
     rnd.shuffle(combos)
@@ -358,8 +364,17 @@ def build(chk):
         x = f"{fn}({lit}{extra})"
         model_fn = "to_number" if fn == "to_number" else "anon"
         line = f"rewrite\ttonum\t{model_fn}\t" + enc_list(["s" if t == "s" else f"n{t}" for t in a])
-        cases.append({"tag": f"to_number:{fn}", "task": ("expr", (x, ctx_pick(rnd, quick))), "line": line, "x": x,
+        cases.append({"tag": f"to_number:{fn}", "task": ("expr", (x, ctx_pick(rnd, quick) + ["describe"])), "line": line, "x": x,
                       "judge": ("tonum", fn, v, is_str)})
+    # casts to NUMBER(p,s) and the reported type of every decimal-family result (precision/scale grids incl. scales 10..37)
+    grid = [(p, sc) for p in (1, 9, 10, 18, 19, 28, 37, 38) for sc in (0, 1, 9, 10, 11, 18, 19, 27, 36, 37) if sc < p or (sc == 0)]
+    rnd.shuffle(grid)
+    for p_, sc in grid[: (24 if quick else len(grid))] + [(20, 10), (38, 37), (11, 10)]:
+        v = "0." + "1" * min(sc, 5) if sc else "7"
+        for x in (f"to_decimal('{v}', {p_}, {sc})", f"'{v}'::number({p_}, {sc})", f"cast('{v}' as decimal({p_}, {sc}))", f"try_to_numeric('{v}', {p_}, {sc})", f"to_number({v}, {p_}, {sc})"):
+            want = Decimal(v).quantize(Decimal(1).scaleb(-sc))
+            cases.append({"tag": "decimal:described-type", "task": ("expr", (x, ["select", "describe"] + rnd.sample(CONTEXTS[1:], 1))), "line": f"rewrite\tdecdesc\t{p_}\t{sc}", "x": x,
+                          "judge": ("decdesc", f"D{want}")})
 
     # ---- DATEADD -------------------------------------------------------------------------------
     dates = ["2023-01-31", "2024-02-29", "2023-02-28", "2023-03-31", "2023-12-31", "1970-01-01", "1969-12-31", "2000-02-29", "2023-05-31", "2100-02-28"]
@@ -393,6 +408,22 @@ def build(chk):
         task = ("datecol", (d, x)) if shape == "dateExpr" else ("expr", (x, ctx_pick(rnd, quick)))
         cases.append({"tag": f"dateadd:{unit}:{mshape}", "task": task, "line": f"rewrite\tdateadd\t{unit}\t{mshape}", "x": x,
                       "judge": ("dateadd", unit, n, base)})
+
+    # ---- TO_TIMESTAMP / TO_TIMESTAMP_NTZ of integers (epoch seconds / scaled) ------------------------------------
+    fracs = {None: (0, 0), 0: (0, 0), 3: (123, 123000), 6: (123456, 123456), 9: (123456000, 123456)}
+    for fn in ("to_timestamp", "to_timestamp_ntz"):
+        for secs in (0, 86399, 951782400, 1700000000, 4102444799):
+            for scale, (frac, micros) in fracs.items():
+                n = secs * 10 ** (scale or 0) + frac
+                x = f"{fn}({n})" if scale is None else f"{fn}({n}, {scale})"
+                want = dt.datetime(1970, 1, 1) + dt.timedelta(seconds=secs, microseconds=micros)
+                cases.append({"tag": f"to_timestamp:scale{scale}", "task": ("expr", (x, ctx_pick(rnd, quick) + ["describe"])), "line": f"rewrite\ttots\t{'-' if scale is None else scale}",
+                              "x": x, "judge": ("tots", obs_cell(want))})
+        for x, want in [(f"dateadd(day, 1, {fn}(1700000000, 0))", dt.datetime(2023, 11, 15, 22, 13, 20)), (f"dateadd(hour, 1, {fn}(1700000000123456000, 9))", dt.datetime(2023, 11, 14, 23, 13, 20, 123456)),
+                        (f"{fn}('1700000000')", dt.datetime(2023, 11, 14, 22, 13, 20)), (f"{fn}('2023-01-05 10:00:00')", dt.datetime(2023, 1, 5, 10, 0))]:
+            cases.append({"tag": "to_timestamp:other", "task": ("expr", (x, CONTEXTS + ["describe"])), "line": "rewrite\ttots\t-", "x": x, "judge": ("tots", obs_cell(want))})
+    cases.append({"tag": "to_timestamp:float", "task": ("expr", ("to_timestamp(1700000000.5)", ["select"])), "line": None, "x": "to_timestamp(1700000000.5)",
+                  "judge": ("fixed", "t2023-11-14 22:13:20.500000", "t2023-11-14 22:13:20.500000+00:00", "C10/to-timestamp-float-tz-aware")})
 
     # ---- DATEDIFF (oracle only, no Lean model: DuckDB's date_diff + the literal cast) -------------
     pairs = [("2022-12-31", "2023-01-01"), ("2023-01-31", "2023-02-01"), ("2023-01-01", "2023-01-01"), ("2024-02-29", "2023-02-28"), ("1969-12-31", "1970-01-01"),
@@ -656,6 +687,12 @@ def expected(case, rep):
         if out.startswith("rewritten"):
             return j[1], j[1], None
         return "REJECTED_OR:" + j[1], "REJECTED_OR:" + j[1], None
+    if k == "tots":
+        if rep["tzaware"] != "0":
+            return j[1] + "+00:00", j[1] + "+00:00", None
+        return j[1], j[1], None
+    if k == "decdesc":
+        return j[1], j[1], None
     if k == "eqnull":
         return "B" + rep["spec"], "B" + rep["impl"], None
     if k == "sha2":
@@ -675,6 +712,24 @@ def expected(case, rep):
     raise ValueError(k)
 
 
+def described_type(case, rep, spec):
+    """the documented result type as `cursor.description` shows it, or None when no type is expected (errors, rejections)"""
+    k = case["judge"][0]
+    if spec.startswith("E:") or spec.startswith("REJECTED"):
+        return None
+    if k == "tonum":
+        out = rep["spec"]
+        if out == "NI":
+            return None
+        p, s = (int(t[1:]) for t in out[1:].split(","))
+        return f"desc:0,{p},{s}"           # FIXED, NUMBER(p, s)
+    if k == "decdesc":
+        return f"desc:0,{rep['precision']},{rep['scale']}"
+    if k == "tots":
+        return "desc:8,0,9" if rep["tzaware"] == "0" else "desc:7,0,9"   # TIMESTAMP_NTZ
+    return None
+
+
 def matches(want: str, real: str) -> bool:
     if want == "REJECTED":
         return real in REJECTED
@@ -691,9 +746,20 @@ def judge(chk, case, real, rep):
     if rep is not None and (rep.get("_raw") == "unsupported" or rep.get("_raw") == "bad-op"):
         chk.count("skipped_unsupported" if rep["_raw"] == "unsupported" else "skipped_bad_op")
         return
-    if k in ("fixed", "rx", "rr", "tonum", "dateadd", "eqnull", "sha2", "model_text", "rejected"):
+    if k in ("fixed", "rx", "rr", "tonum", "tots", "decdesc", "dateadd", "eqnull", "sha2", "model_text", "rejected"):
         spec, impl, key = expected(case, rep)
         for ctx, got in real.items():
+            if ctx == "describe":
+                want_desc = described_type(case, rep, spec)
+                if want_desc is None:
+                    continue
+                chk.case((case["x"], ctx), nontrivial=True)
+                chk.count(f"{tag.split(':')[0]}:describe")
+                if got != want_desc and not (got.startswith("E:") and (spec.startswith("E:") or spec.startswith("REJECTED"))):
+                    chk.violation(f"`select {case['x']}`: cursor.description reports (type_code, precision, scale) = {got[5:] if got.startswith('desc:') else got}, "
+                                  f"the documented result type is {want_desc[5:]}", dict(cinfo, context=ctx),
+                                  broken=f"C10 result type ({tag.split(':')[0]}: C10_decimal_type/C10_decimal_description/C10_to_timestamp_type)")
+                continue
             chk.case((case["x"], ctx), nontrivial=spec not in ("N", "REJECTED") and not spec.startswith("REJECTED_OR:"))
             chk.count(f"{tag.split(':')[0]}:{ctx}")
             c = dict(cinfo, context=ctx)
